@@ -233,9 +233,22 @@ def run_probe(probe):
 
 
 # ----------------------------------------------------------------------------------------------- generation
+def fixed_to_dtype_case():
+    """a FIXED time-tree case (no random choice): HKY, strict clock, explicit internal heights, decimal dates — run by the
+    `to-float32` probe on every seed and tier so that a listed known finding is reproduced deterministically"""
+    return {"taxa": ["B", "A", "D", "C"], "seq_order": ["A", "B", "C", "D"],
+            "seqs": {"A": "ACGTRA-", "B": "ACGTTAC", "C": "AAGTYAC", "D": "CCGTNAG"}, "datatype": "nucleotide", "rooting": "time",
+            "subst": {"kind": "HKY", "kappa": 2.5, "freqs": [0.1, 0.2, 0.3, 0.4]}, "site": {"kind": "constant"},
+            "use_tip_states": False, "use_ambiguities": True,
+            "dates": {"A": 2012.123, "B": 2010.1, "C": 2014.55, "D": 2013.9},
+            "clock": {"kind": "strict", "rate": 0.05},
+            "newick": "((A:1.0,B:1.0):1.0,(C:1.0,D:1.0):1.0);",
+            "internal_heights": [4.6, 1.1, 5.3]}
+
+
 def gen_probes(rng, thorough=False):
     """list of probe descriptions (JSON-serialisable)"""
-    P = []
+    P = [{"kind": "to-float32", "case": fixed_to_dtype_case(), "label": "fixed-time-tree"}]
     k = 3 if thorough else 1
     nuc = ["JC69", "HKY", "GTR", "GeneralNonSymmetric"]
     for _ in range(k):
